@@ -112,6 +112,10 @@ def child_main(path):
             a.update(dict((dec(k), dec(v)) for k, v in op[1]))
         elif o != 'open':
             a = archmon.public_open(b, root, False)
+        if o == 'updatearch':
+            # the source of the update is itself an archive of the same kind, stored next to this one
+            src = archmon.public_open(b, root, False, suffix='B')
+            src.update(dict((dec(k), dec(v)) for k, v in op[1]))
         _audit_mark('begin')
         arm(job['arm'])
         if o == 'set':
@@ -120,6 +124,8 @@ def child_main(path):
             a.setdefault(dec(op[1]), dec(op[2]))
         elif o == 'update':
             a.update(dict((dec(k), dec(v)) for k, v in op[1]))
+        elif o == 'updatearch':
+            a.update(src)
         elif o == 'del':
             del a[dec(op[1])]
         elif o == 'pop':
@@ -291,7 +297,7 @@ def touched_keys(op):
     o = op[0]
     if o in ('set', 'setdefault', 'del', 'pop'):
         return [json.dumps(op[1], sort_keys=True)]
-    if o in ('update', 'dump'):
+    if o in ('update', 'dump', 'updatearch'):
         return [json.dumps(k, sort_keys=True) for k, _ in op[1]]
     if o == 'popkeys':
         return [json.dumps(k, sort_keys=True) for k in op[1]]
@@ -329,6 +335,8 @@ def gen_case(rng, prop='C13'):
         elif kd == 'update' and (present or absent):
             ks = ([pick()] + absent[:2]) if (present and rng.random() < 0.7) else absent[:2]
             op = ['update', [[k, newv()] for k in ks]]
+            if b['kind'] in ('dir', 'file') and not b.get('symlink') and rng.random() < 0.3:
+                op[0] = 'updatearch'      # update() given another archive object instead of a dict
         elif kd == 'del' and present:
             op = ['del', rng.choice(present)]
         elif kd == 'pop' and present:
